@@ -256,6 +256,11 @@ void run_exec(int nthreads, int nobjs, const std::vector<Tok>& toks, vh::Rng* rn
     for (const auto& k : toks) {
       const int t = k.t - 1;
       if (t < 0 || t >= nthreads || sched.finished(t)) continue;
+      if (k.code == 'F') {  // run the thread's current call to completion (prefix of a behaviour)
+        finish_call(t);
+        quiet();
+        continue;
+      }
       const int cop = client_op(k.code);
       if (cop >= 0) {
         if (!at_choice(t)) {  // the real call takes more steps than the model predicted
